@@ -153,13 +153,23 @@ def r6(ctx):
         return
     I = ins[0]
     guard = None
+    late = False
     for d in b.dominators()[I.bb]:
         t = b.blocks[d]['term']
         if t['k'] != 'switch':
             continue
         sl = backslice(b, [t['op']])
         bodies = [lib.body(c.path) for c in sl.calls if c.path and lib.body(c.path) is not None]
-        now = sl.has_call(r'SystemTime::now$|SystemTime::elapsed$|Instant::now$|Utc::now$|Local::now$') or any(x.calls(r'SystemTime::now$|SystemTime::elapsed$') for x in bodies)
+        now_direct = sl.has_call(r'SystemTime::now$|SystemTime::elapsed$|Instant::now$|Utc::now$|Local::now$') or any(x.calls(r'SystemTime::now$|SystemTime::elapsed$') for x in bodies)
+        # ... or the time that was recorded when the metadata were read (a getter of FileMetadata; FileMetadata::new reads the clock before it stats)
+        fm = lib.body('file::FileMetadata::new')
+        rec = [c for c in sl.calls if c.matches(r'^file::FileMetadata::\w+$') and 'SystemTime' in (c.dty if isinstance(c.dty, str) else c.dty())] if fm is not None else []
+        now_recorded = False
+        if rec:
+            clk = fm.calls(r'SystemTime::now$')
+            st_ = fm.calls(r'^std::fs::(metadata|symlink_metadata)$|File::metadata$')
+            now_recorded = bool(clk and st_) and all(m_.bb in fm.reachable(clk[0].bb) and clk[0].bb not in fm.reachable(m_.bb) for m_ in st_)
+        now = now_direct or now_recorded
         mod = sl.has_call(r'Metadata::modified$|FileMetadata::modified$')
         sub = sl.has_call(r'subsec_(nanos|micros|millis)$') or any(x.calls(r'subsec_(nanos|micros|millis)$') for x in bodies)
         if now and mod and sub:
@@ -167,10 +177,18 @@ def r6(ctx):
             skip = [x for x in succ if I.bb not in b.reachable(x) and x != I.bb]
             if skip and 'Err' not in return_variants_from(b, skip[0]):
                 guard = d
+                late = now_direct
     ctx.check(guard is not None, rule, b.path + '|racy-entries-not-stored', I.where(), 'an entry is not stored while the file is younger than the resolution of its time stamp (whole-second time stamps: 2 s)',
               'put() stores an entry for a file whatever its age: on a file system that keeps whole seconds (ext3, ext4 with 128-byte inodes, HFS+, NFS; FAT: 2 s) a rewrite of the same length within the '
               'same second leaves mtime and length as they were recorded, get() takes the entry for valid and returns the hash of the OLD content - two different files are reported as duplicates '
               '(`group --cache` twice, with a same-length rewrite of one file ~100 ms after the first run) and `remove` deletes the only copy of one content')
+
+
+    if guard is not None:
+        ctx.check(not late, rule, b.path + '|age-measured-when-the-metadata-were-read', I.where(), 'the age of the file is measured at the time its metadata were read (FileMetadata::new reads the clock before the stat), i.e. before the data',
+                  'put() compares the modification time with the clock at the time of the STORE, after the data have been read and hashed: when that takes longer than the 2 s window (large file, slow '
+                  'medium, slow hash function, any --transform) the entry is stored although the data were read within the racy second - a same-length rewrite in that second (mtime unchanged on a '
+                  'file system with whole-second time stamps) is then served from the cache as the old content: the cached run reports two different 6 MB files as one group')
 
 
 def r7(ctx):
